@@ -291,15 +291,15 @@ theorem Sim.of_rpost {s₁ s₂ t₁ t₂ : St} (h : Sim P X s₁ s₂) (ha : AS
 
 /-- `add_exit` at parser level: the result of `addExit_rel` plus the unary block frame -/
 theorem addExit_srel (ok : P.Ok) {s₁ s₂ : St} (h : Sim P X s₁ s₂) (f₁ f₂ : Nat) {j : Nat} (hd : P.DG j) (ht : ¬ P.T j)
-    (d : Dest) (c : Cond) :
+    (d : Dest) (c : Cond) (hdn : P.op = true → d ≠ Dest.none) :
     rwp (addExit f₁ j d c) (addExit f₂ (P.γ j) (rnDest P.ρ d) c) s₁ s₂ (SPost P X s₁ s₂) := by
   refine rwp_of_wp_left (addExit_blk f₁ j d c s₁) ?_
-  refine rwp_mono (addExit_rel ok f₁ f₂ j d c s₁ s₂ h.1 hd ht) ?_
+  refine rwp_mono (addExit_rel ok f₁ f₂ j d c s₁ s₂ h.1 hd ht hdn) ?_
   intro _ t₁ _ t₂ ⟨_, ha, e1, e2⟩ hb
   exact ⟨h.of_rpost ha e1 e2, e1, e2, hb⟩
 
 theorem addRowEdge_rel (ok : P.Ok) {s₁ s₂ : St} (h : Sim P X s₁ s₂) (d : Dest) (e : Edge)
-    (hF : e.from_ ≠ [] → e.from_ ∉ X.F) (hmr : e.from_ = [] → MR P s₁) :
+    (hF : e.from_ ≠ [] → e.from_ ∉ X.F) (hmr : e.from_ = [] → MR P s₁) (hdn : P.op = true → d ≠ Dest.none) :
     rwp (addRowEdge d e) (addRowEdge (rnDest P.ρ d) e) s₁ s₂ (SPost P X s₁ s₂) := by
   unfold addRowEdge
   rw [rwp_bind]
@@ -315,17 +315,18 @@ theorem addRowEdge_rel (ok : P.Ok) {s₁ s₂ : St} (h : Sim P X s₁ s₂) (d :
     simp only [Option.map_some]
     rw [rwp_bind]
     refine rwp_of_run (fuelOf_run s₁) (fuelOf_run s₂) ?_
-    exact addExit_srel ok h _ _ (hj g rfl).1 (hj g rfl).2.1 d e.cond
+    exact addExit_srel ok h _ _ (hj g rfl).1 (hj g rfl).2.1 d e.cond hdn
 
 /-- all edges of a row: each source is looked up in the (unchanging) scope -/
 theorem edges_rel (ok : P.Ok) {s₁ s₂ : St} (h : Sim P X s₁ s₂) (d : Dest) (es : List Edge)
-    (hF : ∀ e ∈ es, e.from_ ≠ [] → e.from_ ∉ X.F) (hmr : (∃ e ∈ es, e.from_ = []) → MR P s₁) :
+    (hF : ∀ e ∈ es, e.from_ ≠ [] → e.from_ ∉ X.F) (hmr : (∃ e ∈ es, e.from_ = []) → MR P s₁)
+    (hdn : P.op = true → d ≠ Dest.none) :
     rwp (es.forM (addRowEdge d)) (es.forM (addRowEdge (rnDest P.ρ d))) s₁ s₂ (SPost P X s₁ s₂) := by
   have := rwp_forM (fun t₁ t₂ => Sim P X t₁ t₂ ∧ SEq s₁ t₁ ∧ SEq s₂ t₂ ∧ BlkEq s₁ t₁) id es
     (addRowEdge d) (addRowEdge (rnDest P.ρ d)) ?_ s₁ s₂ ⟨h, SEq.refl _, SEq.refl _, BlkEq.refl _⟩
   · rw [List.map_id] at this; exact this
   · intro e he u₁ u₂ ⟨hu, e1, e2, hb⟩
-    refine rwp_mono (addRowEdge_rel ok hu d e (hF e he) (fun h0 => (hmr ⟨e, he, h0⟩).of_blkEq hb)) ?_
+    refine rwp_mono (addRowEdge_rel ok hu d e (hF e he) (fun h0 => (hmr ⟨e, he, h0⟩).of_blkEq hb) hdn) ?_
     intro _ t₁ _ t₂ ⟨ht, e1', e2', hb'⟩
     exact ⟨ht, e1.trans e1', e2.trans e2', hb.trans hb'⟩
 
